@@ -122,6 +122,8 @@ def random_twcc(rng, base, ref, big=False):
     ws = wire_syms(chunks, count)
     deltas = [rng.randrange(0, 256) if t == 1 else rng.choice([-4000, -1, 256, 300, 5000, 32767, -32768, rng.randrange(-2000, 2000)])
               for t in ws]
+    if sum(abs(d) for d in deltas) > 4000000:          # keep every arrival offset far below 2^31 us (TLC integers)
+        deltas = [d if abs(d) <= 300 else 300 for d in deltas]
     return {"k": "twcc", "base": base % 65536, "count": count, "ref": ref, "chunks": chunks, "deltas": deltas, "dtypes": ws,
             "rts": 0, "blocks": []}
 
@@ -248,7 +250,7 @@ def run(ctx):
     else:
         vlib.model_check(ctx, "MC_FbDecode.tla", vlib.cfg_variant(ctx, "MC_FbDecode.cfg", {
             "RlLens": "{1, 2, 3}", "VecLens": "{1, 2, 3}", "Bases": "{4, 5, 6, 7, 0, 1}", "CountDown": "{0, 1, 2}",
-            "DeltaModes": '{"all", "exact", "short"}'}), timeout=3000)
+            "CountUp": "{1}", "DeltaModes": '{"all", "exact", "short"}'}), timeout=3000)
         vlib.model_check(ctx, "MC_FbDecode.tla", vlib.cfg_variant(ctx, "MC_FbDecode.cfg", {
             "MaxChunks": 2, "MaxSend": 4, "RlSyms": "{0, 1}", "RlLens": "{1, 2}", "VecSyms": "{0, 1, 2}", "VecLens": "{2}",
             "Bases": "{6, 7, 0}", "CountDown": "{0, 1}", "CountUp": "{}", "DeltaModes": '{"all", "short"}'}), timeout=3000,
